@@ -400,9 +400,14 @@ def run(ctx):
         "cg_scaling: no column norm below eps before or after scaling; cg_no_warning_bound: n_iter > 0",
         "exact arithmetic in the theorems (commutative ring / real closed field); binary64 / binary32 behaviour only through "
         "the correspondence tolerances (1e-9 resp. 1e-3 relative to the column / trajectory maximum)",
-        "PARTIAL: the Chebyshev rate 2((sqrt(k)-1)/(sqrt(k)+1))^j, exactness after n steps (preconditioner-independent limit) and "
-        "'t_mat is the Lanczos matrix of the preconditioned operator' are NOT proved; they are evaluated on the implementation "
-        "against a dense oracle on every generated system (support only)",
+        "cg_conjugacy / cg_finite_termination / cg_exact_at_n / cg_precond_same_limit / cg_optimal_over_* / cg_tridiag_is_lanczos / "
+        "cg_tridiag_moments / cg_ritz_values_in_spectrum: statements about REGULAR stretches of the run of the model (run_regular: "
+        "column not frozen, p^T A p >= eps and r^T z >= eps in every loop body considered, so alpha and beta are exact quotients); "
+        "A_j symmetric, preconditioner column-wise a symmetric matrix, eps > 0 (A psd in cg_optimal_*, A invertible for the "
+        "A^-1 b_hat form); satisfiable: Examples cg_regular_run_satisfiable (1x1) and cg_lanczos_run_satisfiable (2x2, L = 1)",
+        "PARTIAL: the Chebyshev rate 2((sqrt(k)-1)/(sqrt(k)+1))^j is NOT proved (its first half, optimality over the Krylov space, "
+        "is: cg_optimal_over_krylov; the second half needs the spectral theorem); e1^T f(T) e1 = z^T f(A) z is proved for "
+        "polynomial f only; both are evaluated on the implementation against a dense oracle on every generated system (support only)",
         "cg_tmat_entries leaves T[0,0] unspecified while t_mat has a single row (that corner is the known finding C08-tmat-zero-at-max-iter-1)"]
 
 
